@@ -37,7 +37,7 @@ def adapter_cases(res, have_drv):
             d = C.write_replay(res.pid, {"case.io": "\n".join(c) + "\n", "impl.obs": "\n".join(impl[0]) + "\n", "verdict.txt": v + "\n"})
             res.violations.append(("%s on a real adapter: %s   [%s]" % (PID, v, " ; ".join(c[1:])), os.path.join(d, "case.io")))
             res.cov["impl_monitor_failures"] += 1
-        elif model is not None and impl[0] != model[0]:
+        elif model is not None and c17.comparable(c) and impl[0] != model[0]:
             res.broken.append("correspondence (adapter cases): real adapter and AsyncProto disagree on `%s`" % " ; ".join(c[1:]))
     res.cov["adapter_cases"] = n
     res.cov["evaluations"] = res.cov.get("evaluations", 0) + n
